@@ -171,6 +171,19 @@ static void runOps(std::shared_ptr<Ctx> cx, TimerService &svc, const std::vector
       if (done) cx->lifeReturned.store(true, std::memory_order_release);
       cx->tr.add(vf::Ev("LifeRet").str("op", op).b("ok", r.success).b("closed", done));
     }
+    else if (op == "restart")
+    {
+      // a full cycle: stop (logged like any stop), reset, start.  Timers that were still pending are gone with the reset;
+      // identifiers start again, so a new timer must not inherit anything from one that had the same id before.
+      cx->tr.add(vf::Ev("LifeCall").str("op", "stop"));
+      auto r0 = svc.stop();
+      cx->lifeReturned.store(true, std::memory_order_release);
+      cx->tr.add(vf::Ev("LifeRet").str("op", "stop").b("ok", r0.success).b("closed", true));
+      auto r1 = svc.reset();
+      cx->lifeReturned.store(false, std::memory_order_release);
+      auto r2 = svc.start();
+      cx->tr.add(vf::Ev("Restart").b("ok", r1.success && r2.success).i("t", cx->us()));
+    }
     else if (op == "late")
     {
       int k = atoi(f[1].c_str());
